@@ -271,6 +271,8 @@ def _rand_model_once(rng, P):  # noqa: C901, PLR0912, PLR0915
         terms.append(mul(ci(-2, 2), mul(var("d"), var("w"))))
         uargs.append("d")
     disc = [v for v in vars_ if v["kind"] == "disc"]
+    disc_all = list(disc)
+    near_tie = False
     if disc:  # noqa: SIM102
         # one table over all discrete variables: asymmetric, separates every axis
         drop = set()
@@ -280,6 +282,11 @@ def _rand_model_once(rng, P):  # noqa: C901, PLR0912, PLR0915
         if has_b and has("p_unused_choice"):
             drop.add("b")
             feat["b_not_in_utility"] = True
+        near_tie = not P["inexact"] and not log_w and (has_a or has_b) and has("p_near_tie")
+        if near_tie:
+            # the discrete choices enter utility only through tiny premia (below): in the last period all their
+            # combinations are near-ties
+            drop |= {"a", "b"}
         disc = [v for v in disc if v["name"] not in drop]
         names = [v["name"] for v in disc]
         if P["inexact"]:
@@ -293,15 +300,15 @@ def _rand_model_once(rng, P):  # noqa: C901, PLR0912, PLR0915
         terms.append(mul(ci(-2, 2), var("_period")))
         uargs.append("_period")
         feat["F13"] = True
-    if not P["inexact"] and not log_w and has("p_near_tie") and (has_a or has_b):
+    if disc_all and near_tie:
         # values around 64 .. 256 whose differences between discrete choices can be as small as 2^-10: still exact in float32
         # (17 significant bits), but any "approximately equal" comparison in the code sees a tie
-        terms.append(const(64))
+        terms.append(const(128))
         if has_a:
-            terms.append(mul(const(F(1, 1024)), var("a")))
+            terms.append(mul(const(rng.choice([F(1, 1024), F(-1, 1024)])), var("a")))
             uargs.append("a")
         if has_b:
-            terms.append(mul(const(F(-1, 512)), var("b")))
+            terms.append(mul(const(rng.choice([F(1, 512), F(-1, 512)])), var("b")))
             uargs.append("b")
         feat["near_ties"] = True
     if has("p_reduction_aux") and (has_a or has_b):
